@@ -2,7 +2,10 @@
 
 package blockchain
 
-import "github.com/kardiachain/go-kardia/kai/state/snapshot"
+import (
+	"github.com/kardiachain/go-kardia/kai/state/snapshot"
+	"github.com/kardiachain/go-kardia/lib/common"
+)
 
 // Access only (C06). Nothing in the repository calls these and they decide nothing.
 
@@ -18,4 +21,15 @@ func (bc *BlockChain) VerifC06Release() {
 	if bc.triedb != nil {
 		bc.triedb.VerifC06Release()
 	}
+}
+
+// VerifC06FlattenSnapshot calls the snapshot tree's public Cap(root, 0): every diff layer up to root is merged into
+// the disk layer (what a long-running node experiences once it holds more than 128 layers and the accumulator
+// exceeds its memory limit, or on every block while the background generator runs). The tree is an unexported
+// field of BlockChain; access only.
+func (bc *BlockChain) VerifC06FlattenSnapshot(root common.Hash) error {
+	if bc.snaps == nil {
+		return nil
+	}
+	return bc.snaps.Cap(root, 0)
 }
